@@ -47,6 +47,16 @@ fn consume_chars<I: DoubleEndedIterator<Item = char>>(mut it: I, how: Consume) -
             std::mem::forget(it);
             return Ret::Text(out);
         }
+        Consume::TakeForget(k) => {
+            for _ in 0..k {
+                match it.next() {
+                    Some(c) => out.push(c),
+                    None => break,
+                }
+            }
+            std::mem::forget(it);
+            return Ret::Text(out);
+        }
     }
     drop(it);
     Ret::Text(out)
